@@ -24,15 +24,15 @@ import (
 )
 
 var (
-	verifFSOn     bool
-	verifMatch    []string
-	verifCount    int64
-	verifArmAt    int64 // absolute count at which to die; 0 = not armed
-	verifTorn     int64
-	verifTraceMu  sync.Mutex
-	verifTraceF   *os.File
-	verifDieLog   string
-	verifDieMu    sync.Mutex
+	verifFSOn    bool
+	verifMatch   []string
+	verifCount   int64
+	verifArmAt   int64 // absolute count at which to die; 0 = not armed
+	verifTorn    int64
+	verifTraceMu sync.Mutex
+	verifTraceF  *os.File
+	verifDieLog  string
+	verifDieMu   sync.Mutex
 )
 
 func init() {
